@@ -64,6 +64,9 @@ class Acc:
 
 
 def main():
+    # this file runs as __main__; property modules import it as vlib.worker. Make both names ONE module object,
+    # otherwise `except CaseTimeout` in a property module would never match the exception raised by the alarm handler.
+    sys.modules.setdefault("vlib.worker", sys.modules[__name__])
     job = common.load_file(sys.argv[1])
     from . import cybuild
     ext = job.get("ext", "pure")
